@@ -37,6 +37,8 @@ class Module:
             self.tree = ast.parse(self.src, filename=path)
         except SyntaxError as e:
             raise AnalysisError(f"{path} does not parse: {e}")
+        from .desugar import desugar
+        self.tree, self.desugared = desugar(self.tree)      # match / walrus -> the statement kinds the engines interpret
         for node in ast.walk(self.tree):
             for ch in ast.iter_child_nodes(node):
                 ch._parent = node
@@ -429,6 +431,39 @@ def triage_table():
 # --------------------------------------------------------------------------
 # runner
 # --------------------------------------------------------------------------
+def run_isolated(rule_fn, repo, res, tier):
+    """Runs the statements of a rule set's run() one by one, so that an ANALYSIS-ERROR in one rule (a construct its
+    engine does not know) does not hide what the other rules of the property find.  -> list of error texts.
+    A statement that needs a name an earlier failed statement would have bound is skipped (and listed)."""
+    import inspect
+    mod = inspect.getmodule(rule_fn)
+    try:
+        src = inspect.getsource(mod)
+        tree = ast.parse(src)
+        fn = [n for n in tree.body if isinstance(n, ast.FunctionDef) and n.name == rule_fn.__name__][0]
+        if any(isinstance(n, (ast.Return, ast.Yield, ast.YieldFrom)) for st in fn.body for n in ast.walk(st)
+               if not isinstance(st, (ast.FunctionDef, ast.ClassDef))):
+            raise ValueError("run() has a return")
+    except (OSError, TypeError, IndexError, ValueError):
+        rule_fn(repo, res, tier)
+        return []
+    ns = dict(mod.__dict__)
+    params = [a.arg for a in fn.args.args]
+    ns.update(dict(zip(params, (repo, res, tier))))
+    errors = []
+    for st in fn.body:
+        code = compile(ast.Module(body=[st], type_ignores=[]), getattr(mod, "__file__", "<rules>"), "exec")
+        try:
+            exec(code, ns)
+        except AnalysisError as e:
+            errors.append(str(e))
+        except NameError as e:
+            if not errors:
+                raise
+            errors.append(f"(skipped `{norm(st, 50)}`: {e})")
+    return errors
+
+
 def run_check(prop, tier, rule_fn, replay=None):
     t0 = time.time()
     seed = int(os.environ.get("VERIF_SEED", "0") or 0)
@@ -438,7 +473,11 @@ def run_check(prop, tier, rule_fn, replay=None):
     try:
         repo = Repo()
         res = Result(prop)
-        rule_fn(repo, res, tier)
+        from . import flow
+        flow.configure(repo)
+        analysis_errors = run_isolated(rule_fn, repo, res, tier)
+        if analysis_errors and not res.findings:
+            raise AnalysisError("; ".join(analysis_errors))
     except AnalysisError as e:
         print(f"ANALYSIS-ERROR property={prop} {e}")
         _write_error_evidence(evidence_path, prop, tier, seed, str(e), time.time() - t0)
@@ -533,7 +572,7 @@ def run_check(prop, tier, rule_fn, replay=None):
             "violations": [f.to_json() for f in violations],
             "repo_digest": repo.digest(),
             "repo_root": repo.root,
-            "notes": res.notes,
+            "notes": res.notes + ["ANALYSIS-ERROR in one rule (the others ran): " + e_ for e_ in analysis_errors],
             "self_check": selfcheck,
         },
         "assumptions": res.assumptions,
@@ -547,9 +586,13 @@ def run_check(prop, tier, rule_fn, replay=None):
         extra = (f"; self-check: {selfcheck['armed_instances']}/{selfcheck['operators']} seeded faults reported, "
                  f"{len(selfcheck['selftest_skipped'])} skipped, {len(selfcheck['selftest_missed'])} missed, "
                  f"clean copy exit {selfcheck['clean_copy_exit']}")
+    for e_ in analysis_errors:
+        print(f"ANALYSIS-ERROR property={prop} {e_}")
     print(f"{prop} {tier}: {n_obl} obligations, {n_dis} discharged, {len(knowns)} known finding(s), "
           f"{len(triaged)} triaged, {len(violations)} violation(s), {ev['wall_s']} s{extra}")
-    return 1 if violations else 0
+    if violations:
+        return 1
+    return 2 if analysis_errors else 0
 
 
 def _write_error_evidence(path, prop, tier, seed, msg, wall):
